@@ -264,7 +264,7 @@ theorem collect_step {ε : Type} (fuel : Nat) (c c' : Compound) (it : R ParseErr
   conv => lhs; unfold Compound.collect
   rw [h]
 
-theorem collect_spec {ε : Type} (bs : Bytes) : ∀ (ts : List Bytes) (off fuel : Nat)
+theorem compound_collect_spec {ε : Type} (bs : Bytes) : ∀ (ts : List Bytes) (off fuel : Nat)
     (acc : List (R ParseError Packet × Nat)),
     off < bs.length → tiling (bs.drop off) = some ts → (∀ t ∈ ts, Packet.parse t ≠ .panic) →
     ts.length < fuel →
@@ -338,7 +338,7 @@ theorem compound_iter {ε : Type} (bs : Bytes) (ts : List Bytes) (hne : bs ≠ [
       items.length ≤ ts.length ∧ c'.isOver = true := by
   have hpos : 0 < bs.length := List.length_pos_iff.mpr hne
   obtain ⟨items, c', e1, e2, e3, e4⟩ :=
-    collect_spec (ε := ε) bs ts 0 fuel [] hpos (by rw [List.drop_zero]; exact ht) hnp hf
+    compound_collect_spec (ε := ε) bs ts 0 fuel [] hpos (by rw [List.drop_zero]; exact ht) hnp hf
   exact ⟨items, c', by rw [e1, List.nil_append], e2, e3, e4⟩
 
 /-- once finished, `next` keeps returning end-of-iteration and the state does not change -/
